@@ -33,7 +33,8 @@ class EASRadio:
             + losDist * losDist
             - 2 * losDist * lenDec * np.cos(exitView)
         )
-        ang = np.arcsin(np.sqrt(s2phi))
+        # s2phi <= 1 geometrically; rounding can exceed it when the decay is abeam of the detector
+        ang = np.arcsin(np.sqrt(np.minimum(s2phi, 1.0)))
         return ang
 
     @decorators.nss_result_store("EFields")
